@@ -453,18 +453,25 @@ func (spt *Tracker) ipfsStatusAll(ctx context.Context) (map[cid.Cid]*api.PinInfo
 	ctx, span := trace.StartSpan(ctx, "tracker/stateless/ipfsStatusAll")
 	defer span.End()
 
-	var ipsMap map[string]api.IPFSPinStatus
-	err := spt.rpcClient.CallContext(
-		ctx,
-		"",
-		"IPFSConnector",
-		"PinLs",
-		"recursive",
-		&ipsMap,
-	)
-	if err != nil {
-		logger.Error(err)
-		return nil, err
+	// Cluster pins are either recursive or direct (PinOptions.Mode).
+	ipsMap := make(map[string]api.IPFSPinStatus)
+	for _, typeFilter := range []string{"recursive", "direct"} {
+		var ipsMapType map[string]api.IPFSPinStatus
+		err := spt.rpcClient.CallContext(
+			ctx,
+			"",
+			"IPFSConnector",
+			"PinLs",
+			typeFilter,
+			&ipsMapType,
+		)
+		if err != nil {
+			logger.Error(err)
+			return nil, err
+		}
+		for k, v := range ipsMapType {
+			ipsMap[k] = v
+		}
 	}
 	pins := make(map[cid.Cid]*api.PinInfo, len(ipsMap))
 	for cidstr, ips := range ipsMap {
